@@ -1,5 +1,284 @@
 package main
 
-func cmdCheck(args []string) int  { return 2 }
-func cmdReplay(args []string) int { return 2 }
-func cmdList()                    {}
+// `symgo check <ID> --tier quick|thorough`: run the registered jobs of a property, replay
+// counterexamples natively, validate sampled path witnesses against the real build, write the
+// evidence file, print VIOLATION / KNOWN-FINDING lines (interface of the task brief).
+
+import (
+	"encoding/json"
+	"flag"
+	"fmt"
+	"os"
+	"path/filepath"
+	"sort"
+	"strings"
+	"time"
+)
+
+type CheckSpec struct {
+	Jobs        []JobSpec `json:"jobs"`
+	Assumptions []string  `json:"assumptions"`
+	Bounds      string    `json:"bounds"`
+}
+
+type Finding struct {
+	ID       string `json:"id"`
+	Property string `json:"property"`
+	Status   string `json:"status"` // open | fixed
+	Commit   string `json:"commit,omitempty"`
+	What     string `json:"what"`
+	Region   string `json:"region,omitempty"`
+}
+
+func loadChecks() map[string]CheckSpec {
+	out := map[string]CheckSpec{}
+	files, _ := filepath.Glob(filepath.Join(verifRoot, "checks", "*.json"))
+	for _, f := range files {
+		b, err := os.ReadFile(f)
+		if err != nil {
+			continue
+		}
+		var cs CheckSpec
+		if err := json.Unmarshal(b, &cs); err != nil {
+			fmt.Fprintln(os.Stderr, "bad check file", f, err)
+			os.Exit(2)
+		}
+		out[strings.TrimSuffix(filepath.Base(f), ".json")] = cs
+	}
+	return out
+}
+
+func loadFindings() []Finding {
+	var fs []Finding
+	b, err := os.ReadFile(filepath.Join(verifRoot, "known_findings.json"))
+	if err != nil {
+		return nil
+	}
+	if err := json.Unmarshal(b, &fs); err != nil {
+		fmt.Fprintln(os.Stderr, "bad known_findings.json:", err)
+		os.Exit(2)
+	}
+	return fs
+}
+
+func cmdList() {
+	cs := loadChecks()
+	var ids []string
+	for id := range cs {
+		ids = append(ids, id)
+	}
+	sort.Strings(ids)
+	for _, id := range ids {
+		fmt.Printf("%s: %d jobs; %s\n", id, len(cs[id].Jobs), cs[id].Bounds)
+		for _, j := range cs[id].Jobs {
+			fmt.Printf("   %-40s %s %s %v tiers=%v\n", j.Name, j.Pkg, j.Fn, j.Params, j.Tiers)
+		}
+	}
+}
+
+func inTier(j JobSpec, tier string) bool {
+	if len(j.Tiers) == 0 {
+		return true
+	}
+	for _, t := range j.Tiers {
+		if t == tier {
+			return true
+		}
+	}
+	return false
+}
+
+func cmdCheck(args []string) int {
+	if len(args) < 1 {
+		usage()
+	}
+	id := args[0]
+	fs := flag.NewFlagSet("check", flag.ExitOnError)
+	tier := fs.String("tier", envOr("VERIF_TIER", "quick"), "quick|thorough")
+	workers := fs.Int("workers", 16, "workers")
+	noReplay := fs.Bool("no-replay", false, "skip native replays (development only)")
+	only := fs.String("only", "", "run only jobs whose name contains this (development only; no evidence written)")
+	fs.Parse(args[1:])
+	t0 := time.Now()
+	cs, ok := loadChecks()[id]
+	if !ok {
+		fmt.Println("ENGINE-ERROR: no check registered for", id)
+		return 2
+	}
+	findings := loadFindings()
+	knownOpen := map[string]bool{}
+	var openList []string
+	for _, f := range findings {
+		if f.Status == "open" {
+			knownOpen[f.ID] = true
+			openList = append(openList, f.ID)
+		}
+	}
+	byDir := map[string][]JobSpec{}
+	var dirs []string
+	for _, j := range cs.Jobs {
+		if !inTier(j, *tier) || (*only != "" && !strings.Contains(j.Name, *only)) {
+			continue
+		}
+		if j.Params == nil {
+			j.Params = map[string]int64{}
+		}
+		if _, seen := byDir[j.Dir]; !seen {
+			dirs = append(dirs, j.Dir)
+		}
+		byDir[j.Dir] = append(byDir[j.Dir], j)
+	}
+	if len(dirs) == 0 {
+		fmt.Println("ENGINE-ERROR: no jobs for tier", *tier)
+		return 2
+	}
+	// native replay binaries are built while the exploration runs
+	rp := newReplayer(openList)
+	if !*noReplay {
+		for _, d := range dirs {
+			for _, j := range byDir[d] {
+				rp.want(j)
+			}
+		}
+		rp.startBuilds()
+	}
+	defer rp.cleanup()
+
+	var jobs []*Job
+	agg := &SolverStats{ByBackend: map[string]int64{}}
+	engineErrors := []string{}
+	for _, d := range dirs {
+		js, eng, err := runGroup(d, byDir[d], knownOpen, *workers)
+		if err != nil {
+			fmt.Println("ENGINE-ERROR:", err)
+			return 2
+		}
+		jobs = append(jobs, js...)
+		st := eng.sstats
+		agg.Queries += st.Queries
+		agg.Sat += st.Sat
+		agg.Unsat += st.Unsat
+		agg.Unknown += st.Unknown
+		agg.CacheHits += st.CacheHits
+		agg.ModelHits += st.ModelHits
+		agg.Nanos += st.Nanos
+		for k, v := range st.ByBackend {
+			agg.ByBackend[k] += v
+		}
+	}
+	ev := newEvidence(id, *tier, cs)
+	violations := 0
+	unconfirmed := 0
+	var lines []string
+	knownSeen := map[string]*Violation{}
+	for _, j := range jobs {
+		if verbose {
+			printJobBrief(j)
+		}
+		for _, e := range j.engineErrs {
+			engineErrors = append(engineErrors, j.Spec.Name+": "+e)
+		}
+		if j.Inconclusive > 0 {
+			engineErrors = append(engineErrors, fmt.Sprintf("%s: %d obligations undischarged (solver unknown)", j.Spec.Name, j.Inconclusive))
+		}
+		if j.Paths == 0 {
+			engineErrors = append(engineErrors, j.Spec.Name+": no path completed (vacuous)")
+		}
+		for _, lbl := range j.Spec.Reach {
+			if j.reach[lbl] == 0 {
+				engineErrors = append(engineErrors, fmt.Sprintf("%s: vacuity: label %q never reached", j.Spec.Name, lbl))
+			}
+		}
+		for fid, v := range j.known {
+			if _, ok := knownSeen[fid]; !ok {
+				knownSeen[fid] = v
+			}
+		}
+		ev.addJob(j)
+	}
+	// replay counterexamples and validate path samples natively
+	if !*noReplay {
+		if err := rp.waitBuilds(); err != nil {
+			engineErrors = append(engineErrors, "replay build: "+err.Error())
+		}
+	}
+	nv := 0
+	for _, j := range jobs {
+		for _, v := range sortedViol(j) {
+			nv++
+			file := filepath.Join(verifRoot, "replays", id, fmt.Sprintf("%s-%d.json", sanitize(j.Spec.Name), nv))
+			rp.writeReplay(file, id, j.Spec, v)
+			v.File = file
+			status := "not-replayed"
+			if !*noReplay {
+				status = rp.confirm(j.Spec, v, file)
+			}
+			v.Replayed = status
+			switch status {
+			case "confirmed", "not-replayable", "not-replayed":
+				violations++
+				lines = append(lines, fmt.Sprintf("VIOLATION property=%s replay=%s", id, file))
+				fmt.Printf("  counterexample (%s): job=%s assertion=%q paths=%d\n    inputs: %s\n", status, j.Spec.Name, v.Msg, v.Count, fmtInputs(v.Inputs))
+			default:
+				unconfirmed++
+				fmt.Printf("UNCONFIRMED model (engine discrepancy, not reported as a violation): job=%s assertion=%q replay=%s\n    inputs: %s\n    native: %s\n", j.Spec.Name, v.Msg, file, fmtInputs(v.Inputs), status)
+			}
+			ev.addViolation(v)
+		}
+	}
+	validated, disagreements := 0, []string{}
+	if !*noReplay {
+		for _, j := range jobs {
+			for i, ps := range j.pathSamples {
+				if ps.Inputs == nil && len(ps.Reach) == 0 {
+					continue
+				}
+				ok, why := rp.validate(j.Spec, ps, i)
+				if ok {
+					validated++
+				} else if why != "" {
+					disagreements = append(disagreements, j.Spec.Name+": "+why)
+				}
+			}
+		}
+	}
+	for _, d := range disagreements {
+		engineErrors = append(engineErrors, "self-validation disagreement: "+d)
+	}
+	for _, f := range findings {
+		if f.Property != id || f.Status != "open" {
+			continue
+		}
+		if v, ok := knownSeen[f.ID]; ok {
+			fmt.Printf("KNOWN-FINDING: property=%s %s %s (witness: %s)\n", id, f.ID, f.What, strings.TrimSpace(fmtInputs(v.Inputs)))
+			ev.KnownReported = append(ev.KnownReported, f.ID)
+		}
+	}
+	ev.finish(agg, validated, violations, unconfirmed, engineErrors, time.Since(t0))
+	if *only == "" {
+		if err := ev.write(); err != nil {
+			fmt.Println("ENGINE-ERROR: cannot write evidence:", err)
+			return 2
+		}
+	}
+	fmt.Printf("%s tier=%s jobs=%d paths=%d obligations=%d discharged=%d queries=%d solver=%.1fs validated_traces=%d violations=%d unconfirmed=%d wall=%.1fs\n",
+		id, *tier, len(jobs), ev.Coverage.States, ev.Coverage.Obligations, ev.Coverage.Discharged, agg.Queries, float64(agg.Nanos)/1e9, validated, violations, unconfirmed, time.Since(t0).Seconds())
+	for _, l := range lines {
+		fmt.Println(l)
+	}
+	if violations > 0 {
+		return 1
+	}
+	if len(engineErrors) > 0 || unconfirmed > 0 {
+		for _, e := range engineErrors {
+			fmt.Println("ENGINE-ERROR:", e)
+		}
+		return 2
+	}
+	return 0
+}
+
+func printJobBrief(j *Job) {
+	fmt.Printf("job %s: wall=%.1fs paths=%d forks=%d pruned=%d obligations=%d discharged=%d inconclusive=%d violations=%d reach=%v notes=%v\n",
+		j.Spec.Name, j.wall.Seconds(), j.Paths, j.Forks, j.Pruned, j.Obligations, j.Discharged, j.Inconclusive, len(j.viol), j.reach, j.notes)
+}
